@@ -73,7 +73,7 @@ def _setup(cls_name):
                 v = sym_val(engine, st, "callable", p)
                 st.assume(Val.is_none(st.get("$code", Val.id(v.t))))
                 args.append(v)
-        return args, {"name": name}, {"me": me, "d": d, "name": name, "cls": cls_name}
+        return args, {"name": name}, {"me": me, "d": d, "name": name, "cls": cls_name, "args": args}
     return setup
 
 
@@ -118,11 +118,32 @@ def _post(cls_name):
             free = sorted(set(n.id for n in ast.walk(lam.body) if isinstance(n, ast.Name)) - set(a.arg for a in lam.args.args))
         cl.append(("the weak reference's death callback refers to the wake-up event only (not to the executor) and sets it", "PC",
                    z3.BoolVal(okw and free is not None and len(free) == 1 and free[0] in ("event", "poll_event")), ["C12", "C03"]))
+        if okw:
+            # run it: when the executor is collected the worker must be woken so that it notices and exits
+            from .base import simulate_callback
+            from pyvc.symexec import Frame
+            frx = Frame(None, engine.repo.func(qn).module, st.new_env(None), None, 0)
+            for s2, r2, ev2 in simulate_callback(engine, st, frx, wrefs[0][1].extra["cb"], Z(NONE, "any")):
+                sets = [e for e in ev2 if e.kind == "event-set"]
+                cl.append(("when the executor is garbage-collected its worker is woken: the death callback sets exactly the executor's wake-up event", "PC",
+                           z3.And(z3.BoolVal(not isinstance(r2, Raise) and len(sets) == 1), sets[0].recv == Val.id(st.get(ef, sid)) if sets else False), ["C12", "C03"], s2))
         cl.append(("every field the loop reads is initialised before the thread starts", "PC",
                    z3.BoolVal(all(any(e.kind == "write" and e.meth == f and i < starts[0][0] for i, e in enumerate(st.trace))
                                   for f in ("_shutdown", ef, "_delegate"))), ["C11", "C12"]))
         from .base import label_key
         key = label_key(engine, st, mtype, ctx["name"].t)
+        if cls_name == "RetryExecutor":
+            cl.append(("the executor's default policy is the very policy object it was given", "PC", st.get("_default_retry_policy", sid) == ctx["args"][2].t, ["C05"]))
+        if cls_name == "PollExecutor":
+            cl.append(("the poll function is the one given; polls are spaced by the documented default of 5.0 s unless the caller says otherwise", "PC",
+                       z3.And(st.get("_poll_fn", sid) == ctx["args"][2].t, st.get("_default_interval", sid) == Val.realv(z3.RealVal(5))), ["C08"]))
+        if cls_name == "TimeoutExecutor":
+            cl.append(("the default timeout is the one given", "PC", st.get("_timeout", sid) == engine.to_val(st, ctx["args"][2]), ["C09"]))
+        if cls_name == "ThrottleExecutor":
+            cl.append(("submit() does not block unless asked to (block defaults to False)", "PC", st.get("_block", sid) == Val.boolv(z3.BoolVal(False)), ["C07"]))
+            rcid = Val.id(st.get("_running_count", sid))
+            cl.append(("a new throttle executor has nothing in flight (counter 0) and nothing queued", "PC",
+                       z3.And(st.get("value", rcid) == Val.intv(z3.IntVal(0)), st.get("$len", Val.id(st.get("_to_submit", sid))) == 0), ["C07"]))
         cl.append(("EXEC_TOTAL and EXEC_INPROGRESS are incremented exactly once per constructed executor, labelled (type=%r, executor=<its name>)" % mtype, "PC",
                    z3.And(z3.BoolVal(len(tot) == 1 and tot[0].meth == "inc" and len(inp) == 1 and inp[0].meth == "inc"),
                           tot[0].args[0] == key if tot else False, inp[0].args[0] == key if inp else False), ["C20"]))
